@@ -3,7 +3,7 @@ from . import domprops as D
 
 
 def groups(tier):
-    n1, nA, nB = (4, 3, 2) if tier == 'quick' else (5, 4, 3)
+    n1, nA, nB = (5, 4, 2) if tier == 'quick' else (6, 5, 3)
     g = [
         dict(id='M.C09.single', desc='Inv preserved by destroy / transfer_within / clone_within from every valid state; removed subtrees unresolvable; descendants iterator', ops=['destroy', 'transfer_within', 'clone_within'], cfg='plain', nA=n1),
         dict(id='M.C09.insert', desc='Inv preserved by insert of builder trees (<=3 nodes) under any parent or none', ops=['insert'], cfg='plain', nA=nA),
